@@ -2,6 +2,7 @@ use core::convert::Infallible;
 
 use crate::de::ReceivedPacket;
 use crate::mqtt_client::outbound::{ControlAction, check_control_packet_size, check_pubrel_size};
+use crate::wire::MessageType;
 use crate::{
     Connection, Error, InboundPublish, Io, PeerError, ProtocolError, QoS, ReasonCode,
     ResourceError, debug, info, trace, warn,
@@ -18,7 +19,7 @@ impl<'a> SessionData<'a> {
         match packet {
             ReceivedPacket::ConnAck(_) => return Err(ProtocolError::UnexpectedPacket.into()),
             ReceivedPacket::SubAck(ack) => {
-                if !self.outbound.ack_packet(ack.packet_id) {
+                if !self.outbound.ack_packet(ack.packet_id, MessageType::SubAck) {
                     debug!("Ignoring stale SUBACK for packet id {=u16}", ack.packet_id);
                     return Ok(false);
                 }
@@ -28,7 +29,10 @@ impl<'a> SessionData<'a> {
                 }
             }
             ReceivedPacket::UnsubAck(ack) => {
-                if !self.outbound.ack_packet(ack.packet_id) {
+                let acked = self
+                    .outbound
+                    .ack_packet(ack.packet_id, MessageType::UnsubAck);
+                if !acked {
                     debug!(
                         "Ignoring stale UNSUBACK for packet id {=u16}",
                         ack.packet_id
@@ -45,7 +49,7 @@ impl<'a> SessionData<'a> {
                 runtime.ping_timeout = None;
             }
             ReceivedPacket::PubAck(ack) => {
-                if !self.outbound.ack_packet(ack.packet_id) {
+                if !self.outbound.ack_packet(ack.packet_id, MessageType::PubAck) {
                     debug!("Ignoring stale PUBACK for packet id {=u16}", ack.packet_id);
                     return Ok(false);
                 }
@@ -57,7 +61,8 @@ impl<'a> SessionData<'a> {
                 ack.reason.code().as_result()?;
             }
             ReceivedPacket::PubRec(rec) => {
-                let queue_release = match self.outbound.ack_packet(rec.packet_id) {
+                let acked = self.outbound.ack_packet(rec.packet_id, MessageType::PubRec);
+                let queue_release = match acked {
                     true => {
                         // A successful PUBREC keeps the exchange open until PUBCOMP, so only a
                         // failing PUBREC gives its slot of the broker's Receive Maximum back.
